@@ -20,6 +20,7 @@ func checkC07(c *an.Ctx) {
 	c.Rule("C07.3", "error chain (E7): the error of the job walk reaches main through propagating call sites only (Run → runTask / runStage → graph error → Schedule → runPipeline → runTarget → actions → app.Run → run → main); main exits non-zero exactly on a non-nil error")
 	c.Rule("C07.4", "sequential targets (E2/E3): every loop over the command-line arguments that runs targets does so by synchronous calls in slice order and returns on the first error")
 	c.Rule("C07.5", "the output layer cannot fail a command (io.Writer contract, = C19.1): every Write of pkg/output reports the full length on success — a short count from a decorator travels up through the MultiWriters into os/exec's copy of the command's output and comes back from the interpreter as an error that is not an exit status, which marks a task errored although all its commands exited 0")
+	c.Rule("C07.6", "a stage's failure is forgiven only by the stage (E5 provenance): what internal/config stores into Stage.AllowFailure is the stage definition's allow_failure as decoded (or a constant) — the scheduler drops every error of a stage that allows failure, interrupted and timed-out runs included, so a flag inherited from the task (which tolerates exit statuses only) turns those into a pipeline reported as successful")
 	c.NotDecided = append(c.NotDecided, "the numeric status the shell library reports for a process", "what logrus.Fatal does (trusted: exits with status 1)", "urfave/cli returning an Action's error from App.Run (trusted summary)")
 	r := resolveRunner(c, "C07.0")
 	if !r.ok {
@@ -41,6 +42,77 @@ func checkC07(c *an.Ctx) {
 	}
 	sequentialTargets(c, r, "C07.4")
 	writerContract(c, "C07.5")
+	// C07.6
+	{
+		p := c.P
+		n := 0
+		for _, fn := range p.Funcs {
+			if !inPkgs("internal/config")(fn) {
+				continue
+			}
+			an.EachInstr(fn, func(in ssa.Instruction) {
+				st, ok := in.(*ssa.Store)
+				if !ok {
+					return
+				}
+				fa, ok := st.Addr.(*ssa.FieldAddr)
+				if !ok || an.TypeField(fa) != "Stage.AllowFailure" {
+					return
+				}
+				n++
+				var bad []string
+				var walk func(v ssa.Value, d int)
+				seen := map[ssa.Value]bool{}
+				walk = func(v ssa.Value, d int) {
+					if v == nil || seen[v] || d > 6 {
+						return
+					}
+					seen[v] = true
+					srcs := p.DeepSources(v, 3, true)
+					if len(srcs) == 0 {
+						srcs = []ssa.Value{v}
+					}
+					for _, src := range srcs {
+						switch x := src.(type) {
+						case *ssa.Const:
+						case *ssa.BinOp:
+							walk(x.X, d+1)
+							walk(x.Y, d+1)
+						case *ssa.UnOp:
+							if fp := an.FieldProv(x); strings.HasPrefix(fp, "stageDefinition.AllowFailure") {
+								continue
+							}
+							if x.Op == token.MUL {
+								if inner, ok := x.X.(*ssa.UnOp); ok && strings.HasPrefix(an.FieldProv(inner), "stageDefinition.AllowFailure") {
+									continue // *def.AllowFailure
+								}
+							}
+							if x.Op == token.NOT {
+								walk(x.X, d+1)
+								continue
+							}
+							bad = append(bad, an.FieldProv(x))
+						case *ssa.Parameter:
+							// a nil test of something else (t != nil) contributes no flag
+							if _, isBool := x.Type().Underlying().(*types.Basic); isBool {
+								bad = append(bad, an.FieldProv(x))
+							}
+						default:
+							if _, isBool := src.Type().Underlying().(*types.Basic); isBool {
+								bad = append(bad, an.FieldProv(src))
+							}
+						}
+					}
+				}
+				walk(st.Val, 0)
+				bad = dedup(bad)
+				c.Check(len(bad) == 0, "C07.6", an.Short(fn)+":Stage.AllowFailure", st.Pos(), "the stage's allow_failure is the stage definition's own", "the stage's allow_failure also depends on "+strings.Join(bad, ", ")+": the scheduler forgives every error of such a stage — a timed-out or interrupted run, a failing before hook — and the pipeline is reported as successful")
+			})
+		}
+		if n == 0 {
+			c.Und("C07.6", "config:Stage.AllowFailure", token.NoPos, "internal/config never sets Stage.AllowFailure")
+		}
+	}
 }
 
 func intBits(t types.Type) (bits int, signed bool, ok bool) {
@@ -110,6 +182,39 @@ func exitCodeProvenance(c *an.Ctx, r *runnerRoles, rule string) {
 							bad = fmt.Sprintf("signed → unsigned conversion %s → %s", x.X.Type(), x.Type())
 						}
 						walk(x.X, depth+1)
+					case *ssa.Call:
+						// a small accessor of the module that returns (a conversion of) its argument: status.Code()
+						h := x.Call.StaticCallee()
+						if h == nil || !an.InModule(h) || h.Blocks == nil || len(h.Blocks) != 1 {
+							continue
+						}
+						for _, ret := range an.Returns(h) {
+							rv := an.RetVal(ret, 0)
+							for {
+								cv, isCv := rv.(*ssa.Convert)
+								if !isCv {
+									break
+								}
+								fb, fs, ok1 := intBits(cv.X.Type())
+								tb, ts, ok2 := intBits(cv.Type())
+								switch {
+								case !ok1 || !ok2:
+									bad = "conversion through a non-integer type"
+								case fs == ts && tb < fb:
+									bad = fmt.Sprintf("narrowing conversion %s → %s", cv.X.Type(), cv.Type())
+								case !fs && ts && tb <= fb:
+									bad = fmt.Sprintf("conversion %s → %s can change the sign of statuses ≥ %d", cv.X.Type(), cv.Type(), 1<<(uint(tb)-1))
+								case fs && !ts:
+									bad = fmt.Sprintf("signed → unsigned conversion %s → %s", cv.X.Type(), cv.Type())
+								}
+								rv = cv.X
+							}
+							for j, prm := range h.Params {
+								if rv == ssa.Value(prm) && j < len(x.Call.Args) {
+									walk(x.Call.Args[j], depth+1)
+								}
+							}
+						}
 					case *ssa.Extract:
 						if x.Index != 0 {
 							continue
@@ -474,9 +579,128 @@ func isArgsSlice(v ssa.Value) bool {
 			if strings.HasSuffix(an.ShortCallee(&call.Call), "cli/v2.Args).Slice") {
 				return true
 			}
+			// the same words, one for one, as values of a named string type of the package
+			if g := call.Call.StaticCallee(); g != nil && argsWordList(g) {
+				return true
+			}
 		}
 	}
 	return false
+}
+
+// argsWordList: g returns the positional arguments word for word — a list as long as (cli.Args).Slice() whose
+// element i is a conversion of argument i to a string type — and does nothing else.
+func argsWordList(g *ssa.Function) bool {
+	if g.Blocks == nil || !an.InModule(g) || len(g.Blocks) > 6 || g.Signature.Results().Len() != 1 {
+		return false
+	}
+	var args ssa.Value
+	an.EachInstr(g, func(in ssa.Instruction) {
+		if call, ok := in.(*ssa.Call); ok && strings.HasSuffix(an.ShortCallee(&call.Call), "cli/v2.Args).Slice") {
+			args = call
+		}
+	})
+	if args == nil {
+		return false
+	}
+	var loop *an.Loop
+	for _, l := range an.Loops(g) {
+		if op := l.RangeOperand(); op != nil && an.SameValue(op, args) {
+			loop = l
+		}
+	}
+	if loop == nil {
+		return false
+	}
+	keys, elems := loop.RangeKeyValue()
+	isIn := func(v ssa.Value, set []ssa.Value) bool {
+		for _, x := range set {
+			if an.SameValue(v, x) {
+				return true
+			}
+		}
+		return false
+	}
+	var list *ssa.MakeSlice
+	nStores := 0
+	okStores := true
+	an.EachInstr(g, func(in ssa.Instruction) {
+		switch x := in.(type) {
+		case *ssa.Store:
+			ia, ok := x.Addr.(*ssa.IndexAddr)
+			if !ok {
+				okStores = false
+				return
+			}
+			mk, ok := an.Resolve(ia.X).(*ssa.MakeSlice)
+			if !ok || !isIn(ia.Index, keys) {
+				okStores = false
+				return
+			}
+			v := x.Val
+			if cv, isCv := v.(*ssa.Convert); isCv {
+				v = cv.X
+			} else if ct, isCt := v.(*ssa.ChangeType); isCt {
+				v = ct.X
+			}
+			if !isIn(v, elems) {
+				okStores = false
+				return
+			}
+			list = mk
+			nStores++
+		case *ssa.MapUpdate, *ssa.Go, *ssa.Defer, *ssa.Send:
+			okStores = false
+		}
+	})
+	if !okStores || nStores != 1 || list == nil {
+		return false
+	}
+	// as long as the arguments, and it is what is returned
+	sized := false
+	for _, src := range an.Sources(list.Len) {
+		if call, ok := src.(*ssa.Call); ok {
+			if b, ok := call.Call.Value.(*ssa.Builtin); ok && b.Name() == "len" && an.SameValue(call.Call.Args[0], args) {
+				sized = true
+			}
+		}
+	}
+	for _, ret := range an.Returns(g) {
+		if an.Resolve(an.RetVal(ret, 0)) != ssa.Value(list) {
+			return false
+		}
+	}
+	return sized
+}
+
+// dashTest: v compares x with the literal `--` — directly, or through a one-line predicate of the package
+// (func (t target) isSeparator() bool { return t == "--" }); it returns the operand and whether the comparison is
+// an equality (as opposed to !=).
+func dashTest(v ssa.Value) (x ssa.Value, lit string, eq bool, ok bool) {
+	switch b := v.(type) {
+	case *ssa.BinOp:
+		if b.Op != token.EQL && b.Op != token.NEQ {
+			return nil, "", false, false
+		}
+		if s, isS := an.ConstString(b.Y); isS {
+			return b.X, s, b.Op == token.EQL, true
+		}
+	case *ssa.Call:
+		h := b.Call.StaticCallee()
+		if h == nil || !an.InModule(h) || h.Blocks == nil || len(h.Blocks) != 1 || len(h.Params) != 1 || len(b.Call.Args) != 1 {
+			return nil, "", false, false
+		}
+		rets := an.Returns(h)
+		if len(rets) != 1 || len(rets[0].Results) != 1 {
+			return nil, "", false, false
+		}
+		if inner, isBo := rets[0].Results[0].(*ssa.BinOp); isBo && (inner.Op == token.EQL || inner.Op == token.NEQ) && inner.X == ssa.Value(h.Params[0]) {
+			if s, isS := an.ConstString(inner.Y); isS {
+				return b.Call.Args[0], s, inner.Op == token.EQL, true
+			}
+		}
+	}
+	return nil, "", false, false
 }
 
 // argLoopOf tells whether l ranges over the command-line arguments and, when
@@ -536,13 +760,13 @@ func cutsAtDash(p *an.Prog, g *ssa.Function) bool {
 		loop.Bound(ex)
 		tested := false
 		ex.Atom = func(v ssa.Value) (an.AVal, bool) {
-			bo, ok := v.(*ssa.BinOp)
-			if !ok || (bo.Op != token.EQL && bo.Op != token.NEQ) || !isOneOf(bo.X, elems) {
+			x, lit, eq, ok := dashTest(v)
+			if !ok || !isOneOf(x, elems) {
 				return an.AVal{}, false
 			}
-			if s, isS := an.ConstString(bo.Y); isS && s == "--" {
+			if lit == "--" {
 				tested = true
-				return an.ABool((bo.Op == token.EQL) == dash), true
+				return an.ABool(eq == dash), true
 			}
 			return an.AVal{}, false
 		}
